@@ -47,7 +47,7 @@ FileHeaps ==
   {H1(F23num, "dense", "F23num"), H1(F23tax, "csr_unsorted", "F23tax"), H1(F11, "dense", "F11"),
    H1(F13, "csc", "F13"), H1(F31, "coo", "F31"), H1(F33dense, "csr_unsorted", "F33dense"),
    H1(T23, "csr_zeros", "T23z"), H1(T33, "csr_zeros", "T33z"), H1(T32, "csc", "T32"), H1(T22, "lil", "T22"),
-   H1(F24frac, "csr_zeros", "F24frac"), H1(F22zero, "dense", "F22zero"), H1(F33part, "dense", "F33part"),
+   H1(F24frac, "csr_zeros", "F24frac"), H1(F22zero, "dense", "F22zero"), H1(F33part, "dense", "F33part"), H1(F22e, "dense", "F22e"),
    HG(F33dense, "dense", "F33gmd", <<<<"observation", "phylogeny", "newick", "((o1,o2),o3);">>,
                                      <<"sample", "graph", "txt", "s1-s2; s2-s3">>>>),
    HG(F23tax, "csc", "F23gmd", <<<<"observation", "tree", "newick", "(o1,o2);">>>>),
